@@ -1330,6 +1330,7 @@ class SequenceParameters:
                 self.get_fraction_positive(),
                 self.get_fraction_negative(),
                 label,
+                title,
                 legendOn,
                 xLim,
                 yLim,
